@@ -508,6 +508,14 @@ func (e *c11Ends) idOf(t *Term) int {
 	return 0
 }
 
+// idOfUnder: idOf in the case flag == val: an id variable selected by the flag stands for the id the case selects.
+func (e *c11Ends) idOfUnder(t *Term, flag *ssa.Parameter, val bool) int {
+	for t != nil && t.Op == "conv" && len(t.Args) == 1 {
+		t = t.Args[0]
+	}
+	return e.idOf(c11TermUnderFlag(e.tm, t, flag, val))
+}
+
 type c11Match struct {
 	iff *ssa.If
 	eq  bool // the outcome on which the candidate's far end has the asked id
@@ -516,8 +524,9 @@ type c11Match struct {
 // c11OrdScan: a loop of edgeBetween over the links of one endpoint, comparing the far end of each with the other id.
 type c11OrdScan struct {
 	l        *Loop
-	list     string
-	from, to int // the scan looks for a link from endpoint `from` to endpoint `to`
+	list     string // the term of the scanned slice as the loop names it
+	shown    string // the list that is scanned in the case looked at
+	from, to int    // the scan looks for a link from endpoint `from` to endpoint `to`
 	tests    []c11Match
 }
 
@@ -535,72 +544,78 @@ func (r *Run) c11OrdinaryScans() {
 	}
 	directed := eb.Params[3]
 
-	var scans []*c11OrdScan
-	for _, l := range loops {
-		lt, idx, ok := c11ListScan(tm, l)
-		if !ok || lt.Op != "field" || len(lt.Args) != 1 || (lt.Name != "Incoming" && lt.Name != "Outgoing") || lt.Args[0].V == nil {
-			continue
-		}
-		ce := ends.classOf(lt.Args[0].V)
-		if ce == 0 {
-			continue
-		}
-		sc := &c11OrdScan{l: l, list: lt.String()}
-		for _, b := range eb.Blocks {
-			if !l.Blocks[b] || InnermostLoop(loops, b) != l {
+	// The scans are classified per value of the direction flag: a loop whose list and compared id are variables
+	// selected by the flag (`list, id := v.Incoming, uid; if !directed { list, id = u.Incoming, vid }`) is, within one
+	// case, the scan of the one list with the one id the case selects (robust_c11.go, c11UnderFlag). Where nothing
+	// depends on the flag both cases see the same scans.
+	scansUnder := func(flag bool) []*c11OrdScan {
+		var scans []*c11OrdScan
+		for _, l := range loops {
+			lt0, idx, ok := c11ListScan(tm, l)
+			if !ok {
 				continue
 			}
-			iff, isIf := b.Instrs[len(b.Instrs)-1].(*ssa.If)
-			if !isIf || len(b.Succs) != 2 || b.Succs[0] == b.Succs[1] {
+			lt := c11TermUnderFlag(tm, lt0, directed, flag)
+			if lt.Op != "field" || len(lt.Args) != 1 || (lt.Name != "Incoming" && lt.Name != "Outgoing") || lt.Args[0].V == nil {
 				continue
 			}
-			for _, outcome := range []bool{true, false} {
-				x, y, isEq := eqCond(tm, Guard{iff.Cond, outcome, b})
-				if !isEq {
+			ce := ends.classOf(lt.Args[0].V)
+			if ce == 0 {
+				continue
+			}
+			sc := &c11OrdScan{l: l, list: lt0.String(), shown: lt.String()}
+			for _, b := range eb.Blocks {
+				if !l.Blocks[b] || InnermostLoop(loops, b) != l {
 					continue
 				}
-				for _, pr := range [][2]*Term{{x, y}, {y, x}} {
-					s := c11IdSubject(pr[0])
-					if s == nil {
+				iff, isIf := b.Instrs[len(b.Instrs)-1].(*ssa.If)
+				if !isIf || len(b.Succs) != 2 || b.Succs[0] == b.Succs[1] {
+					continue
+				}
+				for _, outcome := range []bool{true, false} {
+					x, y, isEq := eqCond(tm, Guard{iff.Cond, outcome, b})
+					if !isEq {
 						continue
 					}
-					end, isEnd := c11LinkEnd(s, sc.list, idx)
-					co := ends.idOf(pr[1])
-					if !isEnd || co == 0 {
-						continue
+					for _, pr := range [][2]*Term{{x, y}, {y, x}} {
+						s := c11IdSubject(pr[0])
+						if s == nil {
+							continue
+						}
+						end, isEnd := c11LinkEnd(s, sc.list, idx)
+						co := ends.idOfUnder(pr[1], directed, flag)
+						if !isEnd || co == 0 {
+							continue
+						}
+						var from, to int
+						switch {
+						case lt.Name == "Outgoing" && end == "OutNode":
+							from, to = ce, co
+						case lt.Name == "Incoming" && end == "InNode":
+							from, to = co, ce
+						default:
+							continue
+						}
+						if sc.from != 0 && (sc.from != from || sc.to != to) {
+							continue
+						}
+						sc.from, sc.to = from, to
+						sc.tests = append(sc.tests, c11Match{iff, outcome})
 					}
-					var from, to int
-					switch {
-					case lt.Name == "Outgoing" && end == "OutNode":
-						from, to = ce, co
-					case lt.Name == "Incoming" && end == "InNode":
-						from, to = co, ce
-					default:
-						continue
-					}
-					if sc.from != 0 && (sc.from != from || sc.to != to) {
-						continue
-					}
-					sc.from, sc.to = from, to
-					sc.tests = append(sc.tests, c11Match{iff, outcome})
 				}
 			}
+			if sc.from != 0 && sc.from != sc.to {
+				scans = append(scans, sc)
+			}
 		}
-		if sc.from != 0 && sc.from != sc.to {
-			scans = append(scans, sc)
-		}
+		return scans
 	}
 
 	// what a return yields on a path: nil when the value is known to be nil; a value that is not known counts as a
 	// link only when everything the result variable can receive besides nil is an element of a link list
 	onlyLinks := map[ssa.Value]bool{}
-	isLink := func(v ssa.Value) bool { // an element of a node's link list: never nil (Genesis appends constructor results)
-		if _, isPhi := v.(*ssa.Phi); isPhi {
-			return false
-		}
-		t := tm.Of(v)
-		return t.Op == "elem" && len(t.Args) >= 1 && t.Args[0].Op == "field" && (t.Args[0].Name == "Incoming" || t.Args[0].Name == "Outgoing")
-	}
+	// an element of a node's link list (or of a variable holding nothing but such lists): never nil (Genesis appends constructor results)
+	isLink := func(v ssa.Value) bool { return c11IsLinkElem(tm, v) }
 	isLinkOrNil := func(v ssa.Value) bool {
 		if ok, done := onlyLinks[v]; done {
 			return ok
@@ -661,7 +676,7 @@ func (r *Run) c11OrdinaryScans() {
 		why, tried := "", 0
 		var witness []string
 		okAny := false
-		for _, sc := range scans {
+		for _, sc := range scansUnder(nd.directed) {
 			if sc.from != nd.from || sc.to != nd.to {
 				continue
 			}
@@ -694,7 +709,7 @@ func (r *Run) c11DecisiveScan(eb *ssa.Function, sc *c11OrdScan, directed *ssa.Pa
 	p := r.P
 	paths, complete := EnumIterPaths(eb, sc.l, 200)
 	if !complete {
-		return "the scan over " + sc.list + " has too many paths to enumerate", nil
+		return "the scan over " + sc.shown + " has too many paths to enumerate", nil
 	}
 	*explored += len(paths)
 	for _, ip := range paths {
@@ -710,7 +725,7 @@ func (r *Run) c11DecisiveScan(eb *ssa.Function, sc *c11OrdScan, directed *ssa.Pa
 			}
 		}
 		if !mismatch {
-			return "the scan over " + sc.list + " can go on to the next link without the current one having been compared with the id and found different", ip.Describe(p)
+			return "the scan over " + sc.shown + " can go on to the next link without the current one having been compared with the id and found different", ip.Describe(p)
 		}
 	}
 	w := c11FindPathEnv(p, c11EnvQuery{Fn: eb, Explored: explored,
@@ -721,7 +736,7 @@ func (r *Run) c11DecisiveScan(eb *ssa.Function, sc *c11OrdScan, directed *ssa.Pa
 			return (from == sc.l.Header && !sc.l.Blocks[to]) || endpointAbsent(from, to)
 		}})
 	if w != nil {
-		return "a nil result is reachable without the scan over " + strings.TrimSpace(sc.list) + " having been exhausted", w
+		return "a nil result is reachable without the scan over " + strings.TrimSpace(sc.shown) + " having been exhausted", w
 	}
 	return "", nil
 }
@@ -992,13 +1007,7 @@ func (r *Run) c11ControlScans() {
 	}
 	tm := NewTermer(eb)
 	c := &c11Ctl{r: r, eb: eb, tm: tm, loops: Loops(eb), ends: &c11Ends{tm: tm, memo: map[ssa.Value]int{}}, directed: eb.Params[3]}
-	isLink := func(v ssa.Value) bool {
-		if _, isPhi := v.(*ssa.Phi); isPhi {
-			return false
-		}
-		t := tm.Of(v)
-		return t.Op == "elem" && len(t.Args) >= 1 && t.Args[0].Op == "field" && (t.Args[0].Name == "Incoming" || t.Args[0].Name == "Outgoing")
-	}
+	isLink := func(v ssa.Value) bool { return c11IsLinkElem(tm, v) }
 	nilResult := func(in ssa.Instruction, env pathEnv) bool {
 		ret, ok := in.(*ssa.Return)
 		if !ok || len(ret.Results) == 0 {
@@ -1274,70 +1283,81 @@ func (r *Run) c11PositiveAnswers() {
 		visit(ret.Results[0], atReturn, 0)
 	}
 	bad := ""
+	dirName := map[bool]string{true: "directed", false: "undirected"}
 	for _, lf := range leaves {
 		t := tm.Of(lf.v)
-		if t.Op != "elem" || len(t.Args) < 2 || t.Args[0].Op != "field" || len(t.Args[0].Args) != 1 || (t.Args[0].Name != "Incoming" && t.Args[0].Name != "Outgoing") {
+		if t.Op != "elem" || len(t.Args) < 2 || !c11IsLinkList(t.Args[0]) {
 			bad = "the result at " + lf.pos + " is " + t.String() + ", not a link taken from a node's link list"
 			break
 		}
-		lt, idx := t.Args[0], t.Args[1].V
-		wantEnd := "InNode"
-		if lt.Name == "Outgoing" {
-			wantEnd = "OutNode"
-		}
-		var others []*Term
-		for _, g := range lf.conds {
-			x, y, isEq := eqCond(tm, g)
-			if !isEq {
+		// The two values of the direction flag are looked at separately: a case that a test made before the return
+		// excludes is skipped; within a case a list / id variable selected by the flag stands for the one value the
+		// case selects (robust_c11.go, c11UnderFlag), and the flag's value is known.
+		for _, flag := range []bool{true, false} {
+			excluded := false
+			for _, g := range lf.conds {
+				if d, isD := c.directedFact(g); isD && d != flag {
+					excluded = true
+				}
+			}
+			if excluded {
 				continue
 			}
-			for _, pr := range [][2]*Term{{x, y}, {y, x}} {
-				if s := c11IdSubject(pr[0]); s != nil {
-					if e, isEnd := c11LinkEnd(s, lt.String(), idx); isEnd && e == wantEnd {
-						others = append(others, pr[1])
-					}
-				}
-			}
-		}
-		if len(others) == 0 {
-			bad = "the link " + t.String() + " is returned at " + lf.pos + " without the id of its " + wantEnd + " having been compared equal with an id of the query"
-			break
-		}
-		holder := lt.Args[0]
-		if ce := c.ends.classOf(holder.V); ce != 0 {
-			ok := false
-			for _, o := range others {
-				co := c.ends.idOf(o)
-				if co == 0 || co == ce {
-					continue
-				}
-				from, to := ce, co
-				if lt.Name == "Incoming" {
-					from, to = co, ce
-				}
-				if from == 1 && to == 2 {
-					ok = true
-					continue
-				}
-				for _, g := range lf.conds {
-					if d, isD := c.directedFact(g); isD && !d {
-						ok = true // the reverse link answers only the undirected query
-					}
-				}
-			}
-			if !ok {
-				bad = "the link " + t.String() + " returned at " + lf.pos + " is not known to lead from u to v (or, for an undirected query only, from v to u)"
+			lt, idx := c11TermUnderFlag(tm, t.Args[0], c.directed, flag), t.Args[1].V
+			if lt.Op != "field" || len(lt.Args) != 1 || (lt.Name != "Incoming" && lt.Name != "Outgoing") {
+				bad = "the result at " + lf.pos + " is, in a " + dirName[flag] + " query, an element of " + lt.String() + ", which is not one node's link list"
 				break
 			}
-			continue
-		}
-		if holder.Op != "elem" || len(holder.Args) < 2 || holder.Args[0].String() != "recv.controlNodes" {
-			bad = "the link " + t.String() + " returned at " + lf.pos + " belongs neither to an endpoint found in allNodes nor to a control node"
-			break
-		}
-		nCases := 0
-		for _, found := range []int{1, 2} {
-			for _, directed := range []bool{true, false} {
+			wantEnd := "InNode"
+			if lt.Name == "Outgoing" {
+				wantEnd = "OutNode"
+			}
+			var others []*Term
+			for _, g := range lf.conds {
+				x, y, isEq := eqCond(tm, g)
+				if !isEq {
+					continue
+				}
+				for _, pr := range [][2]*Term{{x, y}, {y, x}} {
+					if s := c11IdSubject(pr[0]); s != nil {
+						if e, isEnd := c11LinkEnd(s, t.Args[0].String(), idx); isEnd && e == wantEnd {
+							others = append(others, pr[1])
+						}
+					}
+				}
+			}
+			if len(others) == 0 {
+				bad = "the link " + t.String() + " is returned at " + lf.pos + " without the id of its " + wantEnd + " having been compared equal with an id of the query"
+				break
+			}
+			holder := lt.Args[0]
+			if ce := c.ends.classOf(holder.V); ce != 0 {
+				ok := false
+				for _, o := range others {
+					co := c.ends.idOfUnder(o, c.directed, flag)
+					if co == 0 || co == ce {
+						continue
+					}
+					from, to := ce, co
+					if lt.Name == "Incoming" {
+						from, to = co, ce
+					}
+					if (from == 1 && to == 2) || !flag { // the reverse link answers only the undirected query
+						ok = true
+					}
+				}
+				if !ok {
+					bad = "the link " + lt.String() + "[*] returned at " + lf.pos + " is, in a " + dirName[flag] + " query, not known to lead from u to v (or, for an undirected query only, from v to u)"
+					break
+				}
+				continue
+			}
+			if holder.Op != "elem" || len(holder.Args) < 2 || holder.Args[0].String() != "recv.controlNodes" {
+				bad = "the link " + t.String() + " returned at " + lf.pos + " belongs neither to an endpoint found in allNodes nor to a control node"
+				break
+			}
+			for _, found := range []int{1, 2} {
+				directed := flag
 				cs := c11CtlCase{directed, found}
 				feasible := true
 				for _, g := range lf.conds {
@@ -1346,9 +1366,10 @@ func (r *Run) c11PositiveAnswers() {
 					}
 				}
 				if !feasible {
+					// the tests made exclude that exactly this id is the only ordinary node; with both ordinary (or none)
+					// no control node has the id it is selected by, so this return is not reached
 					continue
 				}
-				nCases++
 				matchOK, filterOK := false, false
 				for _, o := range others {
 					if c.idIn(o, cs, 0) == found {
@@ -1371,14 +1392,13 @@ func (r *Run) c11PositiveAnswers() {
 				dirOK := !directed || (lt.Name == "Incoming" && found == 1) || (lt.Name == "Outgoing" && found == 2)
 				if !matchOK || !filterOK || !dirOK {
 					name := map[int]string{1: "u", 2: "v"}
-					dir := map[bool]string{true: "directed", false: "undirected"}
-					bad = fmt.Sprintf("for a %s query in which only %s is an ordinary node the link %s can be returned at %s (far end compared with the ordinary node's id: %v; control node selected by the other id: %v; link leads from u to v: %v)", dir[directed], name[found], t, lf.pos, matchOK, filterOK, dirOK)
+					bad = fmt.Sprintf("for a %s query in which only %s is an ordinary node the link %s can be returned at %s (far end compared with the ordinary node's id: %v; control node selected by the other id: %v; link leads from u to v: %v)", dirName[directed], name[found], t, lf.pos, matchOK, filterOK, dirOK)
 				}
 			}
+			if bad != "" {
+				break
+			}
 		}
-		// nCases == 0: the tests made exclude that exactly one id is an ordinary node; with both ordinary (or none) no
-		// control node has the id it is selected by, so this return is not reached
-		_ = nCases
 		if bad != "" {
 			break
 		}
